@@ -134,6 +134,24 @@ func init() {
 				qp.Desc += " quiet-logger+verbose"
 				last.P = core.MustJSON(qp)
 			}
+			// panic values of every shape reported through f1's own log handlers (JSON as F1_LOG_FORMAT=json selects, and text)
+			for k, kd := range []int{engine.BPanicStruct, engine.BPanicSlice, engine.BPanicMap, engine.BPanicInt, engine.BPanicError, engine.BPanicSliceError, engine.BPanicString, engine.BNilDeref, engine.BPanicBadStringer, engine.BPanicEmpty} {
+				if tier == "quick" && k >= 6 {
+					break
+				}
+				for _, format := range []string{"json", "text"} {
+					if tier == "quick" && format == "text" && k%2 == 1 {
+						continue
+					}
+					add(modes[kd%len(modes)], []int{kd}, false, engine.BehaviourNames[kd])
+					last := &cs[len(cs)-1]
+					var qp c07Params
+					last.Params(&qp)
+					qp.Spec.F1Logs, qp.Spec.Verbose = format, k%2 == 0
+					qp.Desc += " f1-" + format + "-logs"
+					last.P = core.MustJSON(qp)
+				}
+			}
 			// one behaviour per case for the failure APIs that log, with the logger disabled (a mixed plan of 20+
 			// behaviours over a dozen iterations may not contain the one that matters)
 			for _, kd := range []int{engine.BError, engine.BErrorf, engine.BFatal, engine.BFatalf, engine.BAssert, engine.BRequire, engine.BOtherRequire} {
